@@ -38,7 +38,11 @@ def build_map(node, fields, via="add_variable"):
         od[0x1800][1].value, od[0x1800][2].value = 0x181, 1
         od[0x1A00][0].value = len(fields)
         for i, (dt, ln) in enumerate(fields, start=1):
-            od[0x1A00][i].value = (gen.TYPE_INDEX_BASE + dt) << 16 | ln
+            if (dt + ln + i) % 2:
+                # a member of the typed record: its sub-index has nothing to do with its place in the mapping
+                od[0x1A00][i].value = 0x2100 << 16 | (list(R.NAMES).index(dt) + 1) << 8 | ln
+            else:
+                od[0x1A00][i].value = (gen.TYPE_INDEX_BASE + dt) << 16 | ln
         pmap.read(from_od=True)
         return pmap
     pmap.clear()
